@@ -442,6 +442,35 @@ def main(rep):
             rep.violation("config", {"case": "cnone", "script": scripts[-1][1].split("\n"), "driver": "cfg", "implementation": impl.get("cnone"),
                                      "what": "defaults without a configuration file differ from the documentation"})
             found = True
+        # the build WITHOUT Lua (src/config-static.c, the project's default build): klunok compiled with that back end
+        # answers every getter; it must be (i) what the translated table generated/ConfigStatic.v says - the tie of the
+        # second translator - and (ii) what the Lua build answers without a configuration file: the documented defaults
+        nstatic = 0
+        if not found:
+            exe_static, serr = vlib.build_harness("C16static", static_config=True)
+            suni = sorted(set(EDITORS + ["ed", "zz", "emacs", "a", "/w/x", "proj", "klunok"]))
+            sline = "cfguniverse %s\ncfgstmts\n" % " ".join(hexs(u) for u in suni)
+            if not exe_static:
+                rep.defer_divergence({"what": "klunok does not build with config-static.c: %s" % serr[-600:], "driver": "cfg"})
+            else:
+                simpl, smodel, sproblems = vlib.correspond(exe_static, exe_model, "cfg", [("static", sline + "cfgstatic")], sandbox=True)
+                limpl, lmodel, lproblems = vlib.correspond(exe_impl, exe_model, "cfg", [("none", sline + "cfgnone")], sandbox=True)
+                problems += sproblems + lproblems
+                st, lu = simpl.get("static"), limpl.get("none")
+                nstatic = 2
+                if st != lu or not st:
+                    def fields(l):
+                        return dict(x.split("=", 1) for x in (l[0].split()[1:] if l else []) if "=" in x)
+                    a, b = fields(st), fields(lu)
+                    diff = sorted(k for k in set(a) | set(b) if a.get(k) != b.get(k))
+                    rep.violation("static-defaults", {"case": "static", "script": (sline + "cfgstatic").split("\n"), "driver": "cfg", "implementation": st, "lua_build_without_file": lu,
+                                                      "what": "the build without Lua (config-static.c) does not have the documented defaults: it differs from the Lua build started without a configuration file in %s (editor universe: %s)" % (diff, suni)})
+                    found = True
+                elif exe_model and (st != smodel.get("static") or lu != lmodel.get("none")):
+                    rep.defer_divergence({"case": "static", "script": (sline + "cfgstatic").split("\n"), "driver": "cfg", "implementation": st, "model": smodel.get("static"),
+                                          "what": "the table translated from src/config-static.c is not what the compiled getters answer"})
+                else:
+                    validated += 2
         rc = reload_cases(rep.tier, rep.seed)
         if not found:
             f, v = wk.run_cases(rep, exe_impl, exe_model, rc, ["reload", "editor_kept", "journal", "bursts", "queue_form", "fault_reported"])
@@ -452,7 +481,7 @@ def main(rep):
             if not found:
                 rep.violation("driver", {"what": p}, found_input=False)
                 found = True
-        total = len(scripts) + len(rc)
+        total = len(scripts) + len(rc) + nstatic
     else:
         total = len(scripts)
     kinds = {}
@@ -464,7 +493,7 @@ def main(rep):
     rep.cov["input_distribution"] = kinds
     rep.cov["rule"] = ("configuration files as finite lists of assignments of literals to settings and to keys of table-valued settings: every single setting x every value "
                        "class (well-typed strings incl. empty / non-ASCII, numbers incl. 0, negative, non-integral, booleans, tables incl. non-string keys, nil), key operations, "
-                       "random subsets of 2-3 settings; loaded by the real load_config with liblua 5.3 and judged against a restatement of the documentation; plus handler "
+                       "random subsets of 2-3 settings; loaded by the real load_config with liblua 5.3 and judged against a restatement of the documentation; the build without Lua (config-static.c linked instead of config-lua.c): every getter against the table translated from that file and against the Lua build started without a configuration file; plus handler "
                        "histories in which the watched configuration file is rewritten (new debounce / queue / journal / journal stamp pattern / rules / invalid / ill-typed / journal that cannot be opened) at every position; every journal line must carry the stamp pattern of the configuration in force, every pass must store and wait according to the debounce in force")
     rep.cov["samples"] = [render(cases[40][1])[0].split("\n"), render(cases[-1][1])[0].split("\n")]
     vlib.conclude_proofs(rep, found)
